@@ -20,7 +20,7 @@ type Config struct {
 	// for interface invokes and function values).
 	Callees func(ssa.CallInstruction) []*ssa.Function
 	// Pos renders a position.
-	Pos func(token.Pos) string
+	Pos  func(token.Pos) string
 	Name func(*ssa.Function) string
 }
 
@@ -52,7 +52,7 @@ var ReturnsFresh = map[string]bool{
 
 type state struct {
 	cfg      Config
-	tainted  map[ssa.Value]string // value -> provenance note
+	tainted  map[ssa.Value]string  // value -> provenance note
 	holds    map[*ssa.Alloc]string // fresh cells that had owned pointers stored into them
 	holdsV   map[ssa.Value]string  // fresh slices / maps whose elements are owned pointers
 	retTaint map[*ssa.Function]string
